@@ -286,7 +286,7 @@ impl Engine for CliSim {
     }
 
     fn fault_kinds(&self) -> Vec<&'static str> {
-        vec!["command_at_older_operation", "stale_workspace", "ignore_working_copy", "undo_redo", "op_restore", "op_revert", "refused_immutable", "coarse_clock_same_tick_edit"]
+        vec!["command_at_older_operation", "stale_workspace", "ignore_working_copy", "undo_redo", "op_restore", "op_revert", "refused_immutable"]
     }
 
     #[allow(clippy::too_many_lines)]
@@ -535,33 +535,6 @@ impl Engine for CliSim {
                 out.fault("ignore_working_copy", 1);
             }
             // --- user edits before ordinary commands
-            if kind == Kind::Normal && ch.chance(1, 5) {
-                // Clock fault (coarse file-system timestamps): a same-size rewrite
-                // of a file that carries the same timestamp as jj's state file.
-                // Only files written less than two seconds (FAT granularity)
-                // before the last state save qualify; the state file's mtime is
-                // set equal to the file's and the rewrite keeps that mtime, as
-                // all three events would share one tick on such a file system.
-                let ts_path = cwd.join(".jj").join("working_copy").join("tree_state");
-                let f = files[ch.choose(files.len())];
-                let p = cwd.join(f);
-                if let (Ok(ms), Ok(mf)) = (std::fs::metadata(&ts_path), std::fs::symlink_metadata(&p))
-                    && mf.is_file()
-                    && let (Ok(ts), Ok(tf)) = (ms.modified(), mf.modified())
-                    && let Ok(gap) = ts.duration_since(tf)
-                    && gap < std::time::Duration::from_secs(2)
-                    && let Ok(old) = std::fs::read(&p)
-                    && let Some(pos) = old.iter().position(u8::is_ascii_digit)
-                {
-                    let mut new = old.clone();
-                    new[pos] = if new[pos] == b'9' { b'0' } else { new[pos] + 1 };
-                    set_mtime(&ts_path, tf);
-                    std::fs::write(&p, &new).unwrap();
-                    set_mtime(&p, tf);
-                    note!("user rewrites {ws_name}:{f} with the same size in the state file's timestamp tick (coarse clock)");
-                    out.fault("coarse_clock_same_tick_edit", 1);
-                }
-            }
             if kind == Kind::Normal {
                 for _ in 0..ch.range(0, 2) {
                     let f = files[ch.choose(files.len())];
